@@ -1,8 +1,1404 @@
-//! C19 actors: serial FIFO handling, lifecycle, names — not built yet.
+//! C19 — actors: serial FIFO handling, ordered lifecycle, unique names.
+//!
+//! A history checker over the real `compio-actor` crate. One actor type `P`
+//! logs every hook and handler entry/exit (instance id, hook, message id,
+//! thread, global sequence number); client threads log every operation at the
+//! API boundary (call seq, return seq, outcome) from the same global counter.
+//! After the case has been torn down (`Cluster::join` returned, all client
+//! threads joined) the history is checked per actor instance.
+//!
+//! Instance identity of a `Mailbox` (needed for `lookup` results and
+//! supervision events) is the address of its registered name: every spawn
+//! creates its own `Arc<str>`, and `pre_start` registers it first thing.
 
-use vcommon::Args;
+#[path = "c19_oracle.rs"]
+mod oracle;
 
-pub fn main(_args: &Args) {
-    eprintln!("c19: not implemented");
-    std::process::exit(3);
+use std::{
+    collections::HashMap,
+    future::Future,
+    num::NonZeroUsize,
+    pin::Pin,
+    sync::{
+        Arc, Mutex,
+        atomic::{AtomicBool, AtomicI32, AtomicU32, AtomicU64, Ordering::SeqCst},
+        mpsc,
+    },
+    task::{Context, Poll, Wake, Waker},
+    time::{Duration, Instant},
+};
+
+use compio_actor::{
+    Actor, ActorExit, ActorHandle, Call, Cluster, Handler, Mailbox,
+    cluster::SpawnError,
+    mailbox::{CallError, DeliverError, Reply},
+    process_group::{Membership, ProcessGroup},
+    supervisor::SupervisionEvent,
+};
+use compio_dispatcher::Dispatcher;
+use compio_driver::{DriverType, ProactorBuilder};
+use vcommon::{Args, Report, Rng, Value, json};
+
+// ---------------------------------------------------------------------------
+// events
+// ---------------------------------------------------------------------------
+
+static SEQ: AtomicU64 = AtomicU64::new(1);
+
+pub fn seq() -> u64 {
+    SEQ.fetch_add(1, SeqCst)
+}
+
+fn gettid() -> u64 {
+    unsafe { libc::syscall(libc::SYS_gettid) as u64 }
+}
+
+#[derive(Clone, Copy, Debug, PartialEq, Eq, PartialOrd, Ord)]
+pub enum Hook {
+    PreStart,
+    PostStart,
+    PreStop,
+    PostStop,
+}
+
+/// Error value of the actor: who failed where.
+#[derive(Clone, Debug, PartialEq, Eq)]
+pub struct Fail {
+    pub inst: u32,
+    /// 0..3 = hook, 4 = handler
+    pub at: u8,
+    pub msg: u64,
+}
+
+#[derive(Clone, Copy, Debug, PartialEq, Eq, PartialOrd, Ord)]
+pub enum OpKind {
+    Send,
+    Call,
+    Stop,
+    Lookup,
+    Spawn,
+    GSend,
+    GCall,
+}
+
+#[derive(Clone, Debug, PartialEq)]
+pub enum Res {
+    Ok,
+    Full,
+    Closed,
+    /// the error handed back a message with another id
+    WrongBack(u64),
+    /// call: reply received (answering instance, echoed id)
+    Reply(u32, u64),
+    NoReply,
+    /// call accepted, outcome recorded later by a `CallDone` event
+    Pending,
+    StopTrue,
+    StopFalse,
+    Found(Option<u32>),
+    NotFound,
+    Spawned,
+    Abandoned,
+    NameTaken,
+    StartErr(Fail),
+    Unavailable,
+    WorkerStopped,
+    Timeout,
+}
+
+#[derive(Clone, Debug)]
+pub struct OpRec {
+    pub thr: u32,
+    pub kind: OpKind,
+    /// instance the operation was aimed at, when the client knows it
+    pub target: Option<u32>,
+    /// 0 mailbox, 1 broker, 2 mailbox from lookup, 3 group, 4 supervisor/self
+    pub via: u8,
+    /// message id, or instance id for Spawn
+    pub msg: u64,
+    pub call: u64,
+    pub ret: u64,
+    pub res: Res,
+    pub name: Option<String>,
+}
+
+#[derive(Clone, Debug, PartialEq)]
+pub enum ExitRes {
+    Stopped,
+    Failed(Fail),
+    HandleError,
+}
+
+#[derive(Clone, Debug)]
+pub enum Ev {
+    HookB { inst: u32, hook: Hook, tid: u64, seq: u64 },
+    HookE { inst: u32, hook: Hook, ok: bool, seq: u64 },
+    /// handler entry: kind 0 cast, 1 call, 2 supervision event
+    HB { inst: u32, msg: u64, kind: u8, tid: u64, seq: u64 },
+    HE { inst: u32, msg: u64, ok: bool, seq: u64 },
+    /// handler future dropped at an await point
+    HDrop { inst: u32, msg: u64, seq: u64 },
+    /// the actor object was dropped
+    Gone { inst: u32, seq: u64 },
+    Op(OpRec),
+    /// a deferred call finished (seq = when the poller saw it)
+    CallDone { msg: u64, res: Res, seq: u64 },
+    /// the actor's handle resolved (seq = when the poller saw it)
+    Exit { inst: u32, res: ExitRes, seq: u64 },
+    /// kind 0 started, 1 terminated, 2 failed
+    Sup { sup: u32, child: Option<u32>, kind: u8, seq: u64 },
+    Member { mid: u32, inst: u32, group: u8, call: u64, ret: u64 },
+    Leave { mid: u32, call: u64, ret: u64 },
+    ClusterJoin { call: u64, ret: u64, ok: bool },
+    /// instance created by a factory: static facts
+    Inst { inst: u32, slot: usize, name: Option<String>, cap: usize, supervised_by: Option<u32> },
+}
+
+// ---------------------------------------------------------------------------
+// case description
+// ---------------------------------------------------------------------------
+
+#[derive(Clone, Copy, Debug, PartialEq)]
+pub struct HookBeh {
+    pub yields: u8,
+    pub fail: bool,
+}
+
+#[derive(Clone, Copy, Debug, PartialEq)]
+pub struct Plan {
+    pub hooks: [HookBeh; 4],
+}
+
+#[derive(Clone, Copy, Debug, PartialEq)]
+pub enum Beh {
+    Plain,
+    Yield(u8),
+    Sleep,
+    Fail,
+    StopSelf,
+    /// directed scenarios: the handler stays busy until the client opens the gate
+    Gate,
+}
+
+#[derive(Clone, Copy, Debug, PartialEq)]
+pub enum AskBeh {
+    Reply,
+    YieldReply(u8),
+    NoReply,
+    Defer,
+    FailBefore,
+}
+
+#[derive(Clone, Debug)]
+enum Op {
+    Send { slot: usize, via: u8, beh: Beh },
+    Call { slot: usize, via: u8, beh: AskBeh, wait: bool },
+    Stop { slot: usize },
+    Lookup { slot: usize },
+    Respawn { slot: usize, plan: Plan, abandon: bool },
+    GJoin { slot: usize, group: u8 },
+    GLeave,
+    GSend { beh: Beh },
+    GCall { beh: AskBeh },
+    Pause(u16),
+}
+
+#[derive(Clone, Debug)]
+struct SlotSpec {
+    name: Option<String>,
+    cap: usize,
+    /// slot of the supervisor, if supervised
+    sup: Option<usize>,
+    plan: Plan,
+}
+
+#[derive(Clone, Debug)]
+struct Case {
+    workers: usize,
+    driver: u8,
+    slots: Vec<SlotSpec>,
+    threads: Vec<Vec<Op>>,
+    /// supervisor respawns allowed in total
+    respawns: i32,
+    /// leave some actors running when the cluster is joined
+    truncate: bool,
+    /// 0 = random program; n = directed scenario n (a fixed client script)
+    directed: u8,
+}
+
+fn gen_plan(rng: &mut Rng, faulty: bool) -> Plan {
+    let mut hooks = [HookBeh { yields: 0, fail: false }; 4];
+    for (i, h) in hooks.iter_mut().enumerate() {
+        // 200 = sleep 400 us on the worker's timer (a wide window for racing clients)
+        h.yields = match rng.below(12) {
+            0..=3 => rng.range(1, 3) as u8,
+            4 => rng.range(10, 40) as u8,
+            5 => 200,
+            _ => 0,
+        };
+        h.fail = faulty && rng.chance(1, if i == 0 { 6 } else { 10 });
+    }
+    Plan { hooks }
+}
+
+fn gen_beh(rng: &mut Rng, hostile: bool) -> Beh {
+    match rng.below(if hostile { 24 } else { 20 }) {
+        0..=9 => Beh::Plain,
+        10..=15 => Beh::Yield(rng.range(1, 4) as u8),
+        16..=19 => Beh::Sleep,
+        20..=21 => Beh::Fail,
+        _ => Beh::StopSelf,
+    }
+}
+
+fn gen_ask(rng: &mut Rng, hostile: bool) -> AskBeh {
+    match rng.below(if hostile { 12 } else { 10 }) {
+        0..=4 => AskBeh::Reply,
+        5..=6 => AskBeh::YieldReply(rng.range(1, 3) as u8),
+        7 => AskBeh::NoReply,
+        8..=9 => AskBeh::Defer,
+        _ => AskBeh::FailBefore,
+    }
+}
+
+fn gen_case(rng: &mut Rng, thorough: bool) -> Case {
+    let workers = rng.range(1, 4);
+    let nslots = rng.range(1, 4);
+    let supervised = rng.chance(1, 3);
+    let mut slots = vec![];
+    for i in 0..nslots {
+        let is_sup = supervised && i == 0;
+        slots.push(SlotSpec {
+            name: if rng.chance(3, 5) { Some(format!("n{i}")) } else { None },
+            cap: if is_sup { 8 } else { *rng.pick(&[1, 1, 2, 2, 3, 4, 8]) },
+            sup: if supervised && i > 0 && rng.chance(3, 4) { Some(0) } else { None },
+            plan: {
+                let f = !is_sup && rng.chance(1, 5);
+                gen_plan(rng, f)
+            },
+        });
+    }
+    let nthreads = rng.range(1, 6);
+    let hostile = rng.chance(3, 4);
+    let nops = if thorough { rng.range(5, 120) } else { rng.range(5, 50) };
+    let groups = rng.chance(1, 2);
+    let mut threads = vec![];
+    for _ in 0..nthreads {
+        let mut ops = vec![];
+        // role of the thread biases its mix
+        let role = rng.below(4);
+        for _ in 0..nops {
+            let slot = rng.below(nslots);
+            let via = *rng.pick(&[0u8, 0, 0, 1, 2]);
+            let r = rng.below(100);
+            let op = match (role, r) {
+                (_, 0..=39) => Op::Send { slot, via, beh: gen_beh(rng, hostile) },
+                (_, 40..=57) => {
+                    let beh = gen_ask(rng, hostile);
+                    Op::Call { slot, via, beh, wait: beh != AskBeh::Defer && rng.chance(1, 2) }
+                }
+                (0, 58..=69) | (_, 58..=61) if hostile => Op::Stop { slot },
+                (_, 58..=69) => Op::Pause(rng.range(0, 300) as u16),
+                (_, 70..=75) => Op::Lookup { slot },
+                (1, 76..=87) | (_, 76..=79) => {
+                    let f = hostile && rng.chance(1, 3);
+                    Op::Respawn { slot, plan: gen_plan(rng, f), abandon: rng.chance(1, 8) }
+                }
+                (_, 76..=87) => Op::Send { slot, via, beh: Beh::Plain },
+                (_, 88..=99) if groups => match rng.below(8) {
+                    0..=1 => Op::GJoin { slot, group: rng.below(2) as u8 },
+                    2 => Op::GLeave,
+                    3..=5 => Op::GSend { beh: gen_beh(rng, hostile) },
+                    _ => Op::GCall { beh: gen_ask(rng, false) },
+                },
+                _ => Op::Send { slot, via, beh: Beh::Yield(1) },
+            };
+            ops.push(op);
+        }
+        if groups && rng.chance(1, 2) {
+            ops.insert(0, Op::GJoin { slot: rng.below(nslots), group: 0 });
+            ops.insert(0, Op::GJoin { slot: rng.below(nslots), group: 1 });
+        }
+        threads.push(ops);
+    }
+    Case {
+        workers,
+        driver: rng.below(2) as u8,
+        slots,
+        threads,
+        respawns: if supervised { rng.range(0, 6) as i32 } else { 0 },
+        truncate: rng.chance(1, 5),
+        directed: 0,
+    }
+}
+
+/// Directed scenario 1 — the smallest history for "a call accepted before a
+/// stop": capacity-1 actor, its handler busy with message A, `call(Q)` is
+/// accepted behind A, `stop()` is granted, A finishes, the actor stops.
+fn directed_case(n: u8) -> Case {
+    let plain = Plan { hooks: [HookBeh { yields: 0, fail: false }; 4] };
+    Case {
+        workers: 1,
+        driver: 0,
+        slots: vec![SlotSpec { name: None, cap: 1, sup: None, plan: plain }],
+        threads: vec![],
+        respawns: 0,
+        truncate: false,
+        directed: n,
+    }
+}
+
+fn describe(case: &Case) -> Value {
+    json!({
+        "directed": case.directed,
+        "workers": case.workers, "driver": case.driver, "respawns": case.respawns, "truncate": case.truncate,
+        "slots": case.slots.iter().map(|s| format!("{:?}", s)).collect::<Vec<_>>(),
+        "threads": case.threads.iter().map(|t| t.iter().map(|o| format!("{:?}", o)).collect::<Vec<_>>().join("; ")).collect::<Vec<_>>(),
+    })
+}
+
+// ---------------------------------------------------------------------------
+// the actor
+// ---------------------------------------------------------------------------
+
+pub struct Msg {
+    id: u64,
+    beh: Beh,
+}
+
+pub struct Ask {
+    id: u64,
+    beh: AskBeh,
+}
+
+pub struct Ans {
+    id: u64,
+    inst: u32,
+}
+
+const MAX_INST: usize = 512;
+
+struct Slot {
+    spec: SlotSpec,
+    cur: Mutex<Option<(u32, Mailbox<P>)>>,
+}
+
+struct Ctx {
+    log: Mutex<Vec<Ev>>,
+    ptr2inst: Mutex<HashMap<usize, u32>>,
+    gone: Vec<AtomicBool>,
+    exited: Vec<AtomicBool>,
+    next_inst: AtomicU32,
+    next_msg: AtomicU64,
+    next_mid: AtomicU32,
+    slots: Vec<Slot>,
+    handles: Mutex<Vec<(u32, ActorHandle<Fail>)>>,
+    /// every mailbox a spawn returned (the epilogue stops what is still alive)
+    all_mbs: Mutex<Vec<(u32, Mailbox<P>)>>,
+    calls: Mutex<Vec<(u64, Pin<Box<dyn Future<Output = Result<Ans, CallError<Ask>>> + Send>>)>>,
+    respawn_budget: AtomicI32,
+    gmsg: ProcessGroup<Msg>,
+    gcall: ProcessGroup<Call<Ask, Ans>>,
+    stop_poller: AtomicBool,
+    gate_entered: AtomicBool,
+    gate_open: AtomicBool,
+}
+
+impl Ctx {
+    fn push(&self, e: Ev) {
+        self.log.lock().unwrap().push(e);
+    }
+
+    fn inst_of(&self, mb: &Mailbox<P>) -> Option<u32> {
+        let p = mb.name()?.as_ptr() as usize;
+        self.ptr2inst.lock().unwrap().get(&p).copied()
+    }
+
+    fn msg_id(&self) -> u64 {
+        self.next_msg.fetch_add(1, SeqCst)
+    }
+}
+
+pub struct P {
+    inst: u32,
+    ctx: Arc<Ctx>,
+    plan: Plan,
+}
+
+impl Drop for P {
+    fn drop(&mut self) {
+        self.ctx.push(Ev::Gone { inst: self.inst, seq: seq() });
+        self.ctx.gone[self.inst as usize % MAX_INST].store(true, SeqCst);
+    }
+}
+
+pub struct St {
+    deferred: Vec<(u64, Reply<Ans>)>,
+}
+
+struct YieldNow(bool);
+
+impl Future for YieldNow {
+    type Output = ();
+
+    fn poll(mut self: Pin<&mut Self>, cx: &mut Context<'_>) -> Poll<()> {
+        if self.0 {
+            Poll::Ready(())
+        } else {
+            self.0 = true;
+            cx.waker().wake_by_ref();
+            Poll::Pending
+        }
+    }
+}
+
+impl P {
+    async fn hook(&self, hook: Hook) -> Result<(), Fail> {
+        let beh = self.plan.hooks[hook as usize];
+        self.ctx.push(Ev::HookB { inst: self.inst, hook, tid: gettid(), seq: seq() });
+        if beh.yields >= 200 {
+            compio_runtime::time::sleep(Duration::from_micros(400)).await;
+        } else {
+            for _ in 0..beh.yields {
+                YieldNow(false).await;
+            }
+        }
+        self.ctx.push(Ev::HookE { inst: self.inst, hook, ok: !beh.fail, seq: seq() });
+        if beh.fail { Err(Fail { inst: self.inst, at: hook as u8, msg: 0 }) } else { Ok(()) }
+    }
+
+    fn flush(&self, st: &mut St) {
+        for (id, r) in st.deferred.drain(..) {
+            let _ = r.reply(Ans { id, inst: self.inst });
+        }
+    }
+}
+
+/// Brackets one handler invocation in the log.
+struct HGuard<'a> {
+    p: &'a P,
+    msg: u64,
+    open: bool,
+}
+
+impl<'a> HGuard<'a> {
+    fn begin(p: &'a P, msg: u64, kind: u8) -> Self {
+        p.ctx.push(Ev::HB { inst: p.inst, msg, kind, tid: gettid(), seq: seq() });
+        HGuard { p, msg, open: true }
+    }
+
+    fn end(&mut self, ok: bool) {
+        self.open = false;
+        self.p.ctx.push(Ev::HE { inst: self.p.inst, msg: self.msg, ok, seq: seq() });
+    }
+}
+
+impl Drop for HGuard<'_> {
+    fn drop(&mut self) {
+        if self.open {
+            self.p.ctx.push(Ev::HDrop { inst: self.p.inst, msg: self.msg, seq: seq() });
+        }
+    }
+}
+
+impl Actor for P {
+    type Arguments = ();
+    type Error = Fail;
+    type State = St;
+
+    async fn pre_start(&self, myself: &Mailbox<Self>, (): ()) -> Result<St, Fail> {
+        if let Some(n) = myself.name() {
+            self.ctx.ptr2inst.lock().unwrap().insert(n.as_ptr() as usize, self.inst);
+        }
+        self.hook(Hook::PreStart).await?;
+        Ok(St { deferred: vec![] })
+    }
+
+    async fn post_start(&self, _: &Mailbox<Self>, _: &mut St) -> Result<(), Fail> {
+        self.hook(Hook::PostStart).await
+    }
+
+    async fn pre_stop(&self, _: &Mailbox<Self>, _: &mut St) -> Result<(), Fail> {
+        self.hook(Hook::PreStop).await
+    }
+
+    async fn post_stop(&self, _: &Mailbox<Self>, _: &mut St) -> Result<(), Fail> {
+        self.hook(Hook::PostStop).await
+    }
+}
+
+impl Handler<Msg> for P {
+    async fn handle(&self, myself: &Mailbox<Self>, m: Msg, st: &mut St) -> Result<(), Fail> {
+        let mut g = HGuard::begin(self, m.id, 0);
+        self.flush(st);
+        match m.beh {
+            Beh::Plain => {}
+            Beh::Yield(k) => {
+                for _ in 0..k {
+                    YieldNow(false).await;
+                }
+            }
+            Beh::Sleep => compio_runtime::time::sleep(Duration::from_micros(150)).await,
+            Beh::Gate => {
+                self.ctx.gate_entered.store(true, SeqCst);
+                while !self.ctx.gate_open.load(SeqCst) {
+                    YieldNow(false).await;
+                }
+            }
+            Beh::Fail => {
+                g.end(false);
+                return Err(Fail { inst: self.inst, at: 4, msg: m.id });
+            }
+            Beh::StopSelf => {
+                let c = seq();
+                let r = myself.stop();
+                self.ctx.push(Ev::Op(OpRec {
+                    thr: 1000 + self.inst,
+                    kind: OpKind::Stop,
+                    target: Some(self.inst),
+                    via: 4,
+                    msg: m.id,
+                    call: c,
+                    ret: seq(),
+                    res: if r { Res::StopTrue } else { Res::StopFalse },
+                    name: None,
+                }));
+            }
+        }
+        g.end(true);
+        Ok(())
+    }
+}
+
+impl Handler<Call<Ask, Ans>> for P {
+    async fn handle(&self, _: &Mailbox<Self>, call: Call<Ask, Ans>, st: &mut St) -> Result<(), Fail> {
+        let (id, beh) = (call.message().id, call.message().beh);
+        let mut g = HGuard::begin(self, id, 1);
+        match beh {
+            AskBeh::Reply => {
+                let _ = call.reply(Ans { id, inst: self.inst });
+            }
+            AskBeh::YieldReply(k) => {
+                for _ in 0..k {
+                    YieldNow(false).await;
+                }
+                let _ = call.reply(Ans { id, inst: self.inst });
+            }
+            AskBeh::NoReply => drop(call),
+            AskBeh::Defer => {
+                let (_m, r) = call.into_parts();
+                st.deferred.push((id, r));
+            }
+            AskBeh::FailBefore => {
+                g.end(false);
+                return Err(Fail { inst: self.inst, at: 4, msg: id });
+            }
+        }
+        g.end(true);
+        Ok(())
+    }
+}
+
+impl Handler<SupervisionEvent<P>> for P {
+    async fn handle(&self, myself: &Mailbox<Self>, ev: SupervisionEvent<P>, _: &mut St) -> Result<(), Fail> {
+        let sid = (1u64 << 62) | seq();
+        let mut g = HGuard::begin(self, sid, 2);
+        let kind = match &ev {
+            SupervisionEvent::ActorStarted(_) => 0,
+            SupervisionEvent::ActorTerminated(_) => 1,
+            SupervisionEvent::ActorFailed(_) => 2,
+        };
+        let child = self.ctx.inst_of(ev.actor());
+        self.ctx.push(Ev::Sup { sup: self.inst, child, kind, seq: seq() });
+        if kind != 0 {
+            if let Some(name) = ev.actor().name().map(str::to_owned) {
+                // slot of the child = the one with this name
+                let slot = self.ctx.slots.iter().position(|s| s.spec.name.as_deref() == Some(name.as_str()));
+                if let Some(slot) = slot {
+                    if self.ctx.respawn_budget.fetch_sub(1, SeqCst) > 0 {
+                        let plan = Plan { hooks: [HookBeh { yields: (sid % 2) as u8, fail: false }; 4] };
+                        let cluster = Cluster::current();
+                        let fut = start_spawn(&cluster, &self.ctx, slot, plan, Some(myself), 1000 + self.inst, 4);
+                        let out = fut.fut.await;
+                        finish_spawn(&self.ctx, fut.meta, out, false);
+                    }
+                }
+            }
+        }
+        g.end(true);
+        Ok(())
+    }
+}
+
+// ---------------------------------------------------------------------------
+// spawning
+// ---------------------------------------------------------------------------
+
+struct SpawnMeta {
+    inst: u32,
+    slot: usize,
+    thr: u32,
+    via: u8,
+    call: u64,
+    name: Option<String>,
+}
+
+struct SpawnStarted<F> {
+    fut: F,
+    meta: SpawnMeta,
+}
+
+type SpawnOut = Result<(Mailbox<P>, ActorHandle<Fail>), SpawnError<Fail>>;
+
+fn start_spawn(
+    cluster: &Cluster,
+    ctx: &Arc<Ctx>,
+    slot: usize,
+    plan: Plan,
+    sup: Option<&Mailbox<P>>,
+    thr: u32,
+    via: u8,
+) -> SpawnStarted<compio_actor::cluster::SpawnFuture<P>> {
+    let spec = &ctx.slots[slot].spec;
+    let inst = ctx.next_inst.fetch_add(1, SeqCst);
+    let sup_inst = sup.and_then(|_| spec.sup).and_then(|s| ctx.slots[s].cur.lock().unwrap().as_ref().map(|c| c.0));
+    ctx.push(Ev::Inst { inst, slot, name: spec.name.clone(), cap: spec.cap, supervised_by: sup_inst });
+    let c2 = ctx.clone();
+    let call = seq();
+    let mut b = cluster
+        .spawn(move || P { inst, ctx: c2, plan }, ())
+        .with_capacity(NonZeroUsize::new(spec.cap).unwrap());
+    if let Some(n) = &spec.name {
+        b = b.with_name(n.clone());
+    }
+    if let Some(s) = sup {
+        b = b.with_supervisor(s);
+    }
+    let fut = std::future::IntoFuture::into_future(b);
+    SpawnStarted { fut, meta: SpawnMeta { inst, slot, thr, via, call, name: spec.name.clone() } }
+}
+
+fn finish_spawn(ctx: &Arc<Ctx>, m: SpawnMeta, out: SpawnOut, install_only_if_empty: bool) -> bool {
+    let ret = seq();
+    let mut ok = false;
+    let res = match out {
+        Ok((mb, h)) => {
+            ok = true;
+            ctx.handles.lock().unwrap().push((m.inst, h));
+            ctx.all_mbs.lock().unwrap().push((m.inst, mb.clone()));
+            let mut cur = ctx.slots[m.slot].cur.lock().unwrap();
+            if !(install_only_if_empty && cur.is_some()) {
+                *cur = Some((m.inst, mb));
+            }
+            Res::Spawned
+        }
+        Err(SpawnError::NameTaken(_)) => Res::NameTaken,
+        Err(SpawnError::Start(e)) => Res::StartErr(e),
+        Err(SpawnError::Unavailable) => Res::Unavailable,
+        Err(SpawnError::WorkerStopped) => Res::WorkerStopped,
+    };
+    ctx.push(Ev::Op(OpRec {
+        thr: m.thr,
+        kind: OpKind::Spawn,
+        target: Some(m.inst),
+        via: m.via,
+        msg: m.inst as u64,
+        call: m.call,
+        ret,
+        res,
+        name: m.name,
+    }));
+    ok
+}
+
+// ---------------------------------------------------------------------------
+// parking executor for client threads
+// ---------------------------------------------------------------------------
+
+struct Parker(std::thread::Thread, AtomicBool);
+
+impl Wake for Parker {
+    fn wake(self: Arc<Self>) {
+        self.1.store(true, SeqCst);
+        self.0.unpark();
+    }
+}
+
+/// Poll `f` until ready or `give_up()` says so (checked every few ms).
+fn block_on_until<F: Future + Unpin>(f: &mut F, mut give_up: impl FnMut() -> bool) -> Option<F::Output> {
+    let p = Arc::new(Parker(std::thread::current(), AtomicBool::new(false)));
+    let w = Waker::from(p.clone());
+    let mut cx = Context::from_waker(&w);
+    loop {
+        if let Poll::Ready(v) = Pin::new(&mut *f).poll(&mut cx) {
+            return Some(v);
+        }
+        if !p.1.swap(false, SeqCst) {
+            std::thread::park_timeout(Duration::from_millis(2));
+            if !p.1.swap(false, SeqCst) && give_up() {
+                // one last poll
+                if let Poll::Ready(v) = Pin::new(&mut *f).poll(&mut cx) {
+                    return Some(v);
+                }
+                return None;
+            }
+        }
+    }
+}
+
+fn block_on_secs<F: Future>(f: F, secs: u64) -> Option<F::Output> {
+    let deadline = Instant::now() + Duration::from_secs(secs);
+    let mut f = Box::pin(f);
+    block_on_until(&mut f, || Instant::now() > deadline)
+}
+
+// ---------------------------------------------------------------------------
+// client operations
+// ---------------------------------------------------------------------------
+
+struct Client<'a> {
+    ctx: &'a Arc<Ctx>,
+    cluster: &'a Cluster,
+    thr: u32,
+    memberships: Vec<(u32, Option<Membership<Msg>>, Option<Membership<Call<Ask, Ans>>>)>,
+}
+
+fn back_check<T: Send + 'static>(r: Result<(), DeliverError<T>>, id: u64, idof: impl Fn(&T) -> u64) -> Res {
+    match r {
+        Ok(()) => Res::Ok,
+        Err(DeliverError::Full(m)) => {
+            if idof(&m) == id { Res::Full } else { Res::WrongBack(idof(&m)) }
+        }
+        Err(DeliverError::Closed(m)) => {
+            if idof(&m) == id { Res::Closed } else { Res::WrongBack(idof(&m)) }
+        }
+    }
+}
+
+fn call_res(r: Result<Ans, CallError<Ask>>, id: u64) -> Res {
+    match r {
+        Ok(a) => Res::Reply(a.inst, a.id),
+        Err(CallError::NoReply) => Res::NoReply,
+        Err(CallError::Full(m)) => {
+            if m.id == id { Res::Full } else { Res::WrongBack(m.id) }
+        }
+        Err(CallError::Closed(m)) => {
+            if m.id == id { Res::Closed } else { Res::WrongBack(m.id) }
+        }
+    }
+}
+
+impl Client<'_> {
+    /// The mailbox to use for `slot` and the instance it is known to belong to.
+    fn target(&self, slot: usize, via: u8) -> Option<(Mailbox<P>, Option<u32>, u8)> {
+        if via == 2 {
+            if let Some(n) = &self.ctx.slots[slot].spec.name {
+                if let Some(mb) = self.lookup(slot, n) {
+                    let inst = self.ctx.inst_of(&mb);
+                    return Some((mb, inst, 2));
+                }
+                return None;
+            }
+        }
+        let cur = self.ctx.slots[slot].cur.lock().unwrap();
+        cur.as_ref().map(|(i, mb)| (mb.clone(), Some(*i), if via == 2 { 0 } else { via }))
+    }
+
+    fn lookup(&self, _slot: usize, name: &str) -> Option<Mailbox<P>> {
+        let c = seq();
+        let r = self.cluster.lookup::<P, _>(name.to_owned());
+        let ret = seq();
+        let res = match &r {
+            Some(mb) => Res::Found(self.ctx.inst_of(mb)),
+            None => Res::NotFound,
+        };
+        self.ctx.push(Ev::Op(OpRec {
+            thr: self.thr,
+            kind: OpKind::Lookup,
+            target: None,
+            via: 0,
+            msg: 0,
+            call: c,
+            ret,
+            res,
+            name: Some(name.to_owned()),
+        }));
+        r
+    }
+
+    fn rec(&self, kind: OpKind, target: Option<u32>, via: u8, msg: u64, call: u64, ret: u64, res: Res) {
+        self.ctx.push(Ev::Op(OpRec { thr: self.thr, kind, target, via, msg, call, ret, res, name: None }));
+    }
+
+    fn call_common(
+        &self,
+        kind: OpKind,
+        target: Option<u32>,
+        via: u8,
+        id: u64,
+        fut: Pin<Box<dyn Future<Output = Result<Ans, CallError<Ask>>> + Send>>,
+        wait: bool,
+    ) {
+        let mut fut = fut;
+        let (_c, w) = vcommon::task::count_waker();
+        let mut cx = Context::from_waker(&w);
+        let c = seq();
+        // the first poll performs the send
+        let first = fut.as_mut().poll(&mut cx);
+        let ret = seq();
+        match first {
+            Poll::Ready(r) => self.rec(kind, target, via, id, c, ret, call_res(r, id)),
+            Poll::Pending => {
+                self.rec(kind, target, via, id, c, ret, Res::Pending);
+                if wait {
+                    // wait for the answer; stop waiting soon after the target is gone
+                    let ctx = self.ctx.clone();
+                    let mut gone_at: Option<Instant> = None;
+                    let deadline = Instant::now() + Duration::from_secs(2);
+                    let r = block_on_until(&mut fut, || {
+                        let gone = target.is_some_and(|t| ctx.gone[t as usize % MAX_INST].load(SeqCst));
+                        if gone && gone_at.is_none() {
+                            gone_at = Some(Instant::now());
+                        }
+                        gone_at.is_some_and(|g| g.elapsed() > Duration::from_millis(30)) || Instant::now() > deadline
+                    });
+                    if let Some(r) = r {
+                        self.ctx.push(Ev::CallDone { msg: id, res: call_res(r, id), seq: seq() });
+                        return;
+                    }
+                }
+                self.ctx.calls.lock().unwrap().push((id, fut));
+            }
+        }
+    }
+
+    fn run(&mut self, op: &Op) {
+        let ctx = self.ctx;
+        match op {
+            Op::Pause(k) => {
+                for _ in 0..*k {
+                    std::hint::spin_loop();
+                }
+                std::thread::yield_now();
+            }
+            Op::Send { slot, via, beh } => {
+                let Some((mb, inst, via)) = self.target(*slot, *via) else { return };
+                let id = ctx.msg_id();
+                let m = Msg { id, beh: *beh };
+                let c = seq();
+                let r = if via == 1 { mb.broker::<Msg>().send(m) } else { mb.send(m) };
+                let ret = seq();
+                self.rec(OpKind::Send, inst, via, id, c, ret, back_check(r, id, |m| m.id));
+            }
+            Op::Call { slot, via, beh, wait } => {
+                let Some((mb, inst, via)) = self.target(*slot, *via) else { return };
+                let id = ctx.msg_id();
+                let ask = Ask { id, beh: *beh };
+                let fut: Pin<Box<dyn Future<Output = Result<Ans, CallError<Ask>>> + Send>> = if via == 1 {
+                    let b = mb.broker::<Call<Ask, Ans>>();
+                    Box::pin(async move { b.call(ask).await })
+                } else {
+                    Box::pin(async move { mb.call(ask).await })
+                };
+                self.call_common(OpKind::Call, inst, via, id, fut, *wait);
+            }
+            Op::Stop { slot } => {
+                let Some((mb, inst, _)) = self.target(*slot, 0) else { return };
+                let c = seq();
+                let r = mb.stop();
+                let ret = seq();
+                self.rec(OpKind::Stop, inst, 0, 0, c, ret, if r { Res::StopTrue } else { Res::StopFalse });
+            }
+            Op::Lookup { slot } => {
+                if let Some(n) = ctx.slots[*slot].spec.name.clone() {
+                    let _ = self.lookup(*slot, &n);
+                }
+            }
+            Op::Respawn { slot, plan, abandon } => {
+                let sup = ctx.slots[*slot].spec.sup.and_then(|s| ctx.slots[s].cur.lock().unwrap().as_ref().map(|c| c.1.clone()));
+                let st = start_spawn(self.cluster, ctx, *slot, *plan, sup.as_ref(), self.thr, 0);
+                if *abandon {
+                    let SpawnStarted { fut, meta } = st;
+                    drop(fut);
+                    ctx.push(Ev::Op(OpRec {
+                        thr: meta.thr,
+                        kind: OpKind::Spawn,
+                        target: Some(meta.inst),
+                        via: 0,
+                        msg: meta.inst as u64,
+                        call: meta.call,
+                        ret: seq(),
+                        res: Res::Abandoned,
+                        name: meta.name,
+                    }));
+                    return;
+                }
+                match block_on_secs(st.fut, 20) {
+                    Some(out) => {
+                        finish_spawn(ctx, st.meta, out, false);
+                    }
+                    None => ctx.push(Ev::Op(OpRec {
+                        thr: self.thr,
+                        kind: OpKind::Spawn,
+                        target: Some(st.meta.inst),
+                        via: 0,
+                        msg: st.meta.inst as u64,
+                        call: st.meta.call,
+                        ret: seq(),
+                        res: Res::Timeout,
+                        name: st.meta.name,
+                    })),
+                }
+            }
+            Op::GJoin { slot, group } => {
+                let Some((mb, Some(inst), _)) = self.target(*slot, 0) else { return };
+                let mid = ctx.next_mid.fetch_add(1, SeqCst);
+                let c = seq();
+                let (a, b) = if *group == 0 {
+                    (Some(ctx.gmsg.join(mb.broker())), None)
+                } else {
+                    (None, Some(ctx.gcall.join(mb.broker())))
+                };
+                let ret = seq();
+                ctx.push(Ev::Member { mid, inst, group: *group, call: c, ret });
+                self.memberships.push((mid, a, b));
+            }
+            Op::GLeave => {
+                if !self.memberships.is_empty() {
+                    let (mid, a, b) = self.memberships.remove(0);
+                    let c = seq();
+                    if let Some(a) = a {
+                        a.leave();
+                    }
+                    drop(b);
+                    ctx.push(Ev::Leave { mid, call: c, ret: seq() });
+                }
+            }
+            Op::GSend { beh } => {
+                let id = ctx.msg_id();
+                let c = seq();
+                let r = ctx.gmsg.send(Msg { id, beh: *beh });
+                let ret = seq();
+                self.rec(OpKind::GSend, None, 3, id, c, ret, back_check(r, id, |m| m.id));
+            }
+            Op::GCall { beh } => {
+                let id = ctx.msg_id();
+                let g = ctx.gcall.clone();
+                let ask = Ask { id, beh: *beh };
+                let fut = Box::pin(async move { g.call(ask).await });
+                self.call_common(OpKind::GCall, None, 3, id, fut, false);
+            }
+        }
+    }
+
+    fn leave_all(&mut self) {
+        while !self.memberships.is_empty() {
+            self.run(&Op::GLeave);
+        }
+    }
+}
+
+// ---------------------------------------------------------------------------
+// poller: resolves handles and deferred calls, stamps when it saw them
+// ---------------------------------------------------------------------------
+
+fn poll_round(ctx: &Arc<Ctx>, w: &Waker) {
+    let mut cx = Context::from_waker(w);
+    {
+        let mut hs = ctx.handles.lock().unwrap();
+        let mut i = 0;
+        while i < hs.len() {
+            match Pin::new(&mut hs[i].1).poll(&mut cx) {
+                Poll::Ready(r) => {
+                    let (inst, _) = hs.swap_remove(i);
+                    let res = match r {
+                        Ok(ActorExit::Stopped) => ExitRes::Stopped,
+                        Ok(ActorExit::Failed(f)) => ExitRes::Failed(f),
+                        Err(_) => ExitRes::HandleError,
+                    };
+                    ctx.push(Ev::Exit { inst, res, seq: seq() });
+                    ctx.exited[inst as usize % MAX_INST].store(true, SeqCst);
+                }
+                Poll::Pending => i += 1,
+            }
+        }
+    }
+    let mut cs = ctx.calls.lock().unwrap();
+    let mut i = 0;
+    while i < cs.len() {
+        match cs[i].1.as_mut().poll(&mut cx) {
+            Poll::Ready(r) => {
+                let (id, _) = cs.swap_remove(i);
+                ctx.push(Ev::CallDone { msg: id, res: call_res(r, id), seq: seq() });
+            }
+            Poll::Pending => i += 1,
+        }
+    }
+}
+
+// ---------------------------------------------------------------------------
+// running one case
+// ---------------------------------------------------------------------------
+
+pub struct History {
+    pub events: Vec<Ev>,
+    /// calls / handles still pending after everything was torn down
+    pub pending_calls: Vec<u64>,
+    pub pending_handles: Vec<u32>,
+    pub problems: Vec<String>,
+    pub joined: bool,
+    pub group_epilogue: Vec<String>,
+    pub panics: Vec<(String, u32, String)>,
+}
+
+static PANICS: Mutex<Vec<(String, u32, String)>> = Mutex::new(Vec::new());
+
+fn install_hook() {
+    let prev = std::panic::take_hook();
+    std::panic::set_hook(Box::new(move |info| {
+        let msg = if let Some(s) = info.payload().downcast_ref::<&str>() {
+            s.to_string()
+        } else if let Some(s) = info.payload().downcast_ref::<String>() {
+            s.clone()
+        } else {
+            "<non-string>".into()
+        };
+        let (f, l) = info.location().map(|l| (l.file().to_string(), l.line())).unwrap_or_default();
+        if let Ok(mut v) = PANICS.lock() {
+            if v.len() < 32 {
+                v.push((f, l, msg));
+            }
+        }
+        prev(info);
+    }));
+}
+
+fn run_case(case: &Case, sched_seed: u64) -> History {
+    let mut hist = History {
+        events: vec![],
+        pending_calls: vec![],
+        pending_handles: vec![],
+        problems: vec![],
+        joined: false,
+        group_epilogue: vec![],
+        panics: vec![],
+    };
+    PANICS.lock().unwrap().clear();
+    let mut rng = Rng::new(sched_seed);
+    let mut pb = ProactorBuilder::new();
+    pb.driver_type(if case.driver == 0 { DriverType::IoUring } else { DriverType::Poll });
+    pb.capacity(64);
+    let disp = match Dispatcher::builder()
+        .worker_threads(NonZeroUsize::new(case.workers).unwrap())
+        .proactor_builder(pb)
+        .build()
+    {
+        Ok(d) => d,
+        Err(e) => {
+            hist.problems.push(format!("dispatcher build failed: {e}"));
+            return hist;
+        }
+    };
+    let cluster = Cluster::from_dispatcher(disp);
+    let ctx = Arc::new(Ctx {
+        log: Mutex::new(Vec::with_capacity(4096)),
+        ptr2inst: Mutex::new(HashMap::new()),
+        gone: (0..MAX_INST).map(|_| AtomicBool::new(false)).collect(),
+        exited: (0..MAX_INST).map(|_| AtomicBool::new(false)).collect(),
+        next_inst: AtomicU32::new(0),
+        next_msg: AtomicU64::new(1),
+        next_mid: AtomicU32::new(0),
+        slots: case.slots.iter().map(|s| Slot { spec: s.clone(), cur: Mutex::new(None) }).collect(),
+        handles: Mutex::new(vec![]),
+        all_mbs: Mutex::new(vec![]),
+        calls: Mutex::new(vec![]),
+        respawn_budget: AtomicI32::new(case.respawns),
+        gmsg: ProcessGroup::new(),
+        gcall: ProcessGroup::new(),
+        stop_poller: AtomicBool::new(false),
+        gate_entered: AtomicBool::new(false),
+        gate_open: AtomicBool::new(false),
+    });
+
+    // initial actors, in slot order (the supervisor slot first)
+    for (i, s) in case.slots.iter().enumerate() {
+        let sup = s.sup.and_then(|x| ctx.slots[x].cur.lock().unwrap().as_ref().map(|c| c.1.clone()));
+        let st = start_spawn(&cluster, &ctx, i, s.plan, sup.as_ref(), 0, 0);
+        match block_on_secs(st.fut, 20) {
+            Some(out) => {
+                finish_spawn(&ctx, st.meta, out, false);
+            }
+            None => hist.problems.push("initial spawn timed out".into()),
+        }
+    }
+
+    // poller thread
+    let pctx = ctx.clone();
+    let poller = std::thread::spawn(move || {
+        let (_c, w) = vcommon::task::count_waker();
+        while !pctx.stop_poller.load(SeqCst) {
+            poll_round(&pctx, &w);
+            std::thread::sleep(Duration::from_micros(300));
+        }
+    });
+
+    // client threads
+    let gate = std::sync::Barrier::new(case.threads.len());
+    let kept_memberships = std::thread::scope(|s| {
+        let mut hs = vec![];
+        for (ti, ops) in case.threads.iter().enumerate() {
+            let (ctx, cluster, gate) = (&ctx, &cluster, &gate);
+            let mut trng = rng.fork(ti as u64 + 3);
+            hs.push(s.spawn(move || {
+                let mut cl = Client { ctx, cluster, thr: ti as u32 + 1, memberships: vec![] };
+                gate.wait();
+                for op in ops {
+                    if trng.chance(1, 6) {
+                        std::thread::yield_now();
+                    }
+                    cl.run(op);
+                }
+                // memberships stay until the epilogue for half of the threads
+                if trng.chance(1, 2) {
+                    cl.leave_all();
+                }
+                cl.memberships
+            }));
+        }
+        hs.into_iter().map(|h| h.join().expect("client thread panicked")).collect::<Vec<_>>()
+    });
+
+    // epilogue, single threaded from here on
+    let mut main_cl = Client { ctx: &ctx, cluster: &cluster, thr: 0, memberships: vec![] };
+    if case.directed == 1 {
+        main_cl.thr = 1;
+        main_cl.run(&Op::Send { slot: 0, via: 0, beh: Beh::Gate });
+        let deadline = Instant::now() + Duration::from_secs(20);
+        while !ctx.gate_entered.load(SeqCst) && Instant::now() < deadline {
+            std::thread::yield_now();
+        }
+        if !ctx.gate_entered.load(SeqCst) {
+            hist.problems.push("directed: the gate message was not handled in time".into());
+        }
+        main_cl.run(&Op::Call { slot: 0, via: 0, beh: AskBeh::Reply, wait: false });
+        main_cl.run(&Op::Stop { slot: 0 });
+        ctx.gate_open.store(true, SeqCst);
+        main_cl.thr = 0;
+    }
+    let live: Vec<(usize, u32, Mailbox<P>)> = ctx
+        .all_mbs
+        .lock()
+        .unwrap()
+        .iter()
+        .filter(|(inst, _)| !ctx.exited[*inst as usize % MAX_INST].load(SeqCst))
+        .map(|(inst, mb)| (0usize, *inst, mb.clone()))
+        .collect();
+    // a ping per live actor: everything accepted before it must have been handled before it
+    for (_, inst, mb) in &live {
+        let id = ctx.msg_id();
+        let mb2 = mb.clone();
+        let fut = Box::pin(async move { mb2.call(Ask { id, beh: AskBeh::Reply }).await });
+        main_cl.call_common(OpKind::Call, Some(*inst), 0, id, fut, true);
+    }
+    // group epilogue: stop one member, then check eviction and hand-back
+    {
+        let before = ctx.gmsg.len();
+        let id = ctx.msg_id();
+        let c = seq();
+        let r = ctx.gmsg.send(Msg { id, beh: Beh::Plain });
+        let ret = seq();
+        let res = back_check(r, id, |m| m.id);
+        let after = ctx.gmsg.len();
+        if after > before {
+            hist.group_epilogue.push(format!("group grew from {before} to {after} during a send"));
+        }
+        if matches!(res, Res::Closed) && after != 0 {
+            hist.group_epilogue.push(format!(
+                "group send returned Closed (no live member) but {after} members remain registered"
+            ));
+        }
+        main_cl.rec(OpKind::GSend, None, 3, id, c, ret, res);
+    }
+    let stop_these: Vec<&(usize, u32, Mailbox<P>)> =
+        live.iter().filter(|_| !(case.truncate && rng.chance(1, 2))).collect();
+    let mut all_exited = !case.truncate;
+    for (_, inst, mb) in &stop_these {
+        let c = seq();
+        let r = mb.stop();
+        main_cl.rec(OpKind::Stop, Some(*inst), 0, 0, c, seq(), if r { Res::StopTrue } else { Res::StopFalse });
+    }
+    // wait (bounded) until the stopped ones have exited
+    let deadline = Instant::now() + Duration::from_secs(20);
+    for (_, inst, _) in &stop_these {
+        while !ctx.exited[*inst as usize % MAX_INST].load(SeqCst) {
+            if Instant::now() > deadline {
+                hist.problems.push("a stopped actor did not exit within 20 s".into());
+                all_exited = false;
+                break;
+            }
+            std::thread::sleep(Duration::from_micros(200));
+        }
+    }
+    // after every member was stopped the group must hand the message back and evict
+    if all_exited {
+        let id = ctx.msg_id();
+        let c = seq();
+        let r = ctx.gmsg.send(Msg { id, beh: Beh::Plain });
+        let ret = seq();
+        let res = back_check(r, id, |m| m.id);
+        if matches!(res, Res::Ok | Res::Full) {
+            hist.group_epilogue.push(format!("every actor has exited, yet the group send returned {res:?}"));
+        }
+        if ctx.gmsg.len() != 0 {
+            hist.group_epilogue.push(format!("every actor has exited and a send went round, yet {} closed members remain", ctx.gmsg.len()));
+        }
+        main_cl.rec(OpKind::GSend, None, 3, id, c, ret, res);
+    }
+    drop(live);
+    drop(kept_memberships);
+
+    // tear down the cluster
+    let c = seq();
+    let jr = block_on_secs(cluster.clone().join(), 30);
+    let ret = seq();
+    match jr {
+        Some(Ok(())) => {
+            hist.joined = true;
+            ctx.push(Ev::ClusterJoin { call: c, ret, ok: true });
+        }
+        Some(Err(e)) => {
+            ctx.push(Ev::ClusterJoin { call: c, ret, ok: false });
+            hist.problems.push(format!("cluster join failed: {e}"));
+        }
+        None => hist.problems.push("cluster join timed out".into()),
+    }
+    // final rounds of the poller, then stop it
+    std::thread::sleep(Duration::from_millis(3));
+    ctx.stop_poller.store(true, SeqCst);
+    let _ = poller.join();
+    let (_c, w) = vcommon::task::count_waker();
+    for _ in 0..5 {
+        poll_round(&ctx, &w);
+        std::thread::sleep(Duration::from_millis(1));
+    }
+    hist.pending_calls = ctx.calls.lock().unwrap().iter().map(|c| c.0).collect();
+    hist.pending_handles = ctx.handles.lock().unwrap().iter().map(|h| h.0).collect();
+    // break reference cycles: drop the futures and mailboxes held by the context
+    ctx.calls.lock().unwrap().clear();
+    ctx.handles.lock().unwrap().clear();
+    ctx.all_mbs.lock().unwrap().clear();
+    for s in &ctx.slots {
+        s.cur.lock().unwrap().take();
+    }
+    hist.events = std::mem::take(&mut *ctx.log.lock().unwrap());
+    hist.panics = PANICS.lock().unwrap().clone();
+    hist
+}
+
+// ---------------------------------------------------------------------------
+// driver
+// ---------------------------------------------------------------------------
+
+fn eval_case(rep: &mut Report, case: &Case, gen_seed: u64, thorough: bool, sched_seed: u64) -> (bool, bool) {
+    let (tx, rx) = mpsc::channel();
+    let c = case.clone();
+    let _ = std::thread::Builder::new().name("v19-case".into()).spawn(move || {
+        let h = run_case(&c, sched_seed);
+        let _ = tx.send(h);
+    });
+    let Ok(hist) = rx.recv_timeout(Duration::from_secs(90)) else {
+        rep.inconclusive("watchdog: case did not finish in 90 s (no verdict)");
+        rep.note(format!("watchdog: gen_seed {gen_seed} sched_seed {sched_seed}"));
+        return (false, false);
+    };
+    let out = oracle::check(&hist, case.slots.len());
+    for (sig, nontrivial) in &out.signatures {
+        rep.eval(nontrivial.then(|| sig.clone()));
+    }
+    for (k, v) in &out.counters {
+        rep.count(k, *v);
+    }
+    for (k, v) in &out.floors {
+        rep.floor(k, *v);
+    }
+    rep.max("client_threads", case.threads.len() as i64);
+    rep.max("workers", case.workers as i64);
+    if rep.want_sample() {
+        if let Some((sig, _)) = out.signatures.iter().find(|s| s.1) {
+            rep.sample(json!({"signature": sig, "case": describe(case)}));
+        }
+    }
+    for p in &hist.problems {
+        rep.inconclusive(&format!("harness: {p}"));
+    }
+    for i in &out.inconclusive {
+        rep.inconclusive(i);
+    }
+    let violated = !out.findings.is_empty();
+    for (sig, what) in &out.findings {
+        rep.violation(
+            sig,
+            what,
+            json!({"gen_seed": gen_seed, "directed": case.directed, "thorough": thorough, "sched_seed": sched_seed, "reps": 300, "case": describe(case)}),
+        );
+    }
+    (true, violated)
+}
+
+pub fn main(args: &Args) {
+    install_hook();
+    let leg = args.str("leg", "plain");
+    let mut rep = Report::from_args("C19", &leg, args);
+    rep.set_exhaustive(false);
+
+    if let Some(path) = args.get("replay") {
+        let txt = std::fs::read_to_string(path).unwrap_or_default();
+        let v: Value = vcommon::serde_json::from_str(&txt).unwrap_or(Value::Null);
+        let prog = &v["program"];
+        match prog["gen_seed"].as_u64() {
+            Some(gs) => {
+                let thorough = prog["thorough"].as_bool().unwrap_or(false);
+                let case = match prog["directed"].as_u64() {
+                    Some(n) if n > 0 => directed_case(n as u8),
+                    _ => gen_case(&mut Rng::new(gs), thorough),
+                };
+                let reps = args.usize("reps", prog["reps"].as_u64().unwrap_or(300) as usize);
+                let s0 = prog["sched_seed"].as_u64().unwrap_or(1);
+                for i in 0..reps {
+                    let (go, violated) = eval_case(&mut rep, &case, gs, thorough, s0.wrapping_add(i as u64));
+                    if !go || violated || rep.out_of_time() {
+                        break;
+                    }
+                }
+            }
+            None => rep.inconclusive("replay file has no usable program"),
+        }
+        rep.finish();
+        return;
+    }
+
+    let mut rng = Rng::new(args.seed()).fork(args.shard() + 1);
+    let iters = args.iters(300, 3000);
+    if args.shard() == 0 {
+        // directed minimal histories first (deterministic)
+        let case = directed_case(1);
+        let (go, _) = eval_case(&mut rep, &case, 0, false, 1);
+        if !go {
+            rep.finish();
+            return;
+        }
+    }
+    for _ in 0..iters {
+        if rep.out_of_time() {
+            break;
+        }
+        let gs = rng.next_u64();
+        let case = gen_case(&mut Rng::new(gs), args.thorough());
+        let s = rng.next_u64();
+        let (go, _) = eval_case(&mut rep, &case, gs, args.thorough(), s);
+        if !go {
+            break;
+        }
+    }
+    rep.finish();
 }
